@@ -208,6 +208,9 @@ func (f *Frame) execAlloc(cur *blockCur, x *ssa.Alloc) {
 	}
 	cur.st = c.store(cur.st, p, c.so.zero(t))
 	f.setVal(x, Val{T: x.Type(), P: p})
+	if !escapes(x) {
+		c.localObjs = append(c.localObjs, localObj{ref: ref, keys: c.heapKeysOfPtr(p)})
+	}
 }
 
 func (f *Frame) freshRef(cur *blockCur, hint string) string {
@@ -417,6 +420,11 @@ func (f *Frame) execMakeSlice(cur *blockCur, x *ssa.MakeSlice) {
 	cp := c.toIdx(f.val(x.Cap))
 	zero := c.so.idxLit(0)
 	f.safety("makeslice", cur, and(c.iLe(zero, ln), c.iLe(ln, cp), c.iLt(cp, c.so.idxLit(1<<47))), x, "")
+	if b := f.rootOption("alloc-bound"); b != "" {
+		var n int64
+		fmt.Sscanf(b, "%d", &n)
+		f.safety("alloc", cur, c.iLe(cp, c.so.idxLit(n)), x, "")
+	}
 	ref := f.freshRef(cur, f.prefixSym()+x.Name()+"_arr")
 	el := x.Type().Underlying().(*types.Slice).Elem()
 	k := c.so.heapArr(el)
@@ -762,3 +770,14 @@ func (f *Frame) execNext(cur *blockCur, x *ssa.Next) {
 }
 
 func exprString(s string) string { return strings.Join(strings.Fields(s), " ") }
+
+func (f *Frame) rootOption(name string) string {
+	x := f
+	for x.callerFrame != nil {
+		x = x.callerFrame
+	}
+	if x.con == nil {
+		return ""
+	}
+	return x.con.Options[name]
+}
